@@ -764,6 +764,39 @@ impl<const N: usize> ScenN<N> {
         }
     }
 
+    /// `closerace <stall ms> <key> <ts> <len> <seed>`: `try_close_active_blob` is started and stalled inside the sync of
+    /// the active blob; a write is issued meanwhile.  Answer: `close=<ok|err> w=<ok|err>`.
+    fn closerace(&mut self, toks: &[&str]) -> String {
+        use std::sync::Arc;
+        let ms: u64 = toks[1].parse().unwrap_or(300);
+        let key = match hex_bytes(toks[2]) { Some(k) if k.len() == N => k, _ => return "bad-op".into() };
+        let ts: u64 = toks[3].parse().unwrap_or(1);
+        let (len, seed): (usize, u64) = (toks[4].parse().unwrap_or(1), toks[5].parse().unwrap_or(1));
+        let st = match self.st.take() { Some(s) => Arc::new(s), None => return "err NoStorage".into() };
+        let d = gen_data(len, seed);
+        self.data.insert(d.clone(), (len, seed));
+        pearl::verif::arm(pearl::verif::Failpoint { kind: pearl::verif::OpKind::Sync, pattern: ".blob".into(), nth: 0,
+            action: pearl::verif::Action::Pause(78), sticky: false });
+        std::thread::spawn(move || { std::thread::sleep(Duration::from_millis(ms)); pearl::verif::release(78); });
+        let (rc, rw) = self.rt.block_on(async {
+            let st_a = st.clone();
+            let a = tokio::spawn(async move { st_a.try_close_active_blob().await.is_ok() });
+            let t0 = std::time::Instant::now();
+            while pearl::verif::paused_gates().is_empty() && t0.elapsed() < Duration::from_millis(200) {
+                tokio::time::sleep(Duration::from_millis(1)).await;
+            }
+            let k = ArrayKey::<N>::from(key.clone());
+            let rw = tokio::time::timeout(Duration::from_secs(30), st.write(&k, Bytes::from(d), BlobRecordTimestamp::new(ts))).await;
+            let rc = tokio::time::timeout(Duration::from_secs(30), a).await;
+            (matches!(rc, Ok(Ok(true))), matches!(rw, Ok(Ok(()))))
+        });
+        pearl::verif::clear_failpoints();
+        let st = match Arc::try_unwrap(st) { Ok(s) => s, Err(_) => return "err StorageStillShared".into() };
+        self.rt.block_on(async { Self::quiesce(&st).await });
+        self.st = Some(st);
+        format!("close={} w={}", if rc { "ok" } else { "err" }, if rw { "ok" } else { "err" })
+    }
+
     /// `race2 <stall ms> <key> <ts> <lenA> <seedA> <lenB> <seedB>`: two clients write the same key with the same
     /// timestamp; client A is started first and stalled inside its file write (pause failpoint) for <stall ms>, client B is
     /// issued while A is stalled.  Both are acknowledged; which of the two wins the tie is decided by the code (the later
@@ -1757,6 +1790,9 @@ impl<const N: usize> ScenN<N> {
         }
         if toks[0] == "race2" && toks.len() >= 7 {
             return self.race2(&toks);
+        }
+        if toks[0] == "closerace" && toks.len() >= 6 {
+            return self.closerace(&toks);
         }
         if toks[0] == "killcheck" && toks.len() >= 2 {
             return self.killcheck(toks[1]);
